@@ -29,7 +29,7 @@ SHARD_TIMEOUT = {"quick": 600, "thorough": 7200}
 
 NSHARDS = 16
 VERDICT_PREFIXES = ("shape-mismatch", "circuit-value-mismatch", "build-exception",
-                    "simulator-exception", "slot-out-of-range", "memory-row-out-of-range")
+                    "simulator-exception", "slot-out-of-range", "memory-row-out-of-range", "contract:")
 
 
 def shapes_upto(n):
@@ -202,6 +202,7 @@ def _account(out, env, e):
 
 def run_shard(spec, want_read=True, prefixes=VERDICT_PREFIXES):
     instrument.install_slot_invariant()
+    instrument.install_construction_contracts()
     out = {"evaluations": 0, "fps": set(), "hist": {}, "violations": [], "samples": [],
            "exhaustive": [], "extra": {"expressions": 0}}
     kind = spec["kind"]
